@@ -104,6 +104,9 @@ STMTS = [
     "gacc = gacc + t", "t = gacc * 2.0_wp",
     "call arr4_out(o%g(k)%d, 6, t)", "t = o%g(l)%d(k)", "o%g(k)%d(l) = t", "call bump(o%g(k)%tag)",
     "o%g(o%sel)%tag = o%g(k)%tag + 1", "call arr4_out(o%g(o%sel)%d, 6, q)", "call arr4_out(f%m(k:k+2), 3, t)",
+    # sections whose bounds are (or equal) the declared bounds: the bound variables are still read
+    "a(1:n) = 1.0_wp", "a2(1:n,1:m2) = 2.0_wp", "c(1:n) = a(1:n) + a2(1:n,1)", "t = sum(a(1:n))",
+    "a2(1:n,m2) = b(1:n)", "call arr_out(a(1:n), n, t)", "a(1:n:1) = q",
 ]
 
 
